@@ -12,7 +12,7 @@ import (
 
 func init() {
 	core.Register(&core.Property{
-		ID: "C04",
+		ID:   "C04",
 		Rule: "join-request, rejoin-request type 0/1/2 and join-accept (12 and 28 bytes; CFList absent / channel list / channel mask; OptNeg both ways; RXDelay 0..15; JoinNonce < 2^24 incl. boundaries) with random asymmetric EUIs/nonces and random keys. Set*JoinMIC is compared with the harness' own CMAC over the spec model's own little-endian serialisation; Validate*JoinMIC must agree exactly with the model on single-field perturbations (JoinReqType/JoinEUI/DevNonce matter iff OptNeg); EncryptJoinAcceptPayload output is compared byte for byte with AES-ECB-decrypt(payload|MIC) and must be recovered by the device-side AES-encrypt; decrypting with a wrong key must yield exactly what the model's AES yields. Distinct = (message kind, OptNeg, CFList kind, perturbation class).",
 		Assumptions: []string{
 			"crypto/aes trusted; CMAC is the harness' own RFC 4493 implementation",
@@ -143,13 +143,13 @@ func runC04(c *core.Ctx) {
 }
 
 type upJoin struct {
-	kind     string
-	major    byte
-	joinEUI  [8]byte
-	devEUI   [8]byte
-	netID    [3]byte
-	nonce    uint16
-	typ      byte
+	kind    string
+	major   byte
+	joinEUI [8]byte
+	devEUI  [8]byte
+	netID   [3]byte
+	nonce   uint16
+	typ     byte
 }
 
 func (u upJoin) lib() lorawan.PHYPayload {
